@@ -746,7 +746,15 @@ func (g *gen) craftedReplay(nr *rand.Rand) {
 			g.res.Excluded[KFElectPrecom]++
 			return
 		}
-		e := s.CraftJustified(d, root, round, ph, cert, root, sub)
+		// PRECOMMIT's build height is what the replicas store with their lock: genuine while the forged-build-height finding is open
+		rcb := root
+		if p := s.FindProposal(cert.BlockHash, cert.ResultsHash); p != nil && findingOpen(KFBuildHeight) {
+			if rcb != p.RcBuild {
+				g.res.Excluded[KFBuildHeight]++
+			}
+			rcb = p.RcBuild
+		}
+		e := s.CraftJustified(d, root, round, ph, cert, rcb, sub)
 		g.deliverAll(e)
 		g.class("replay:cert-in-new-leader-msg")
 	case 2: // block gossip with any certificate (partial, wrong phase, old root height)
@@ -781,7 +789,20 @@ func (g *gen) craftedReplay(nr *rand.Rand) {
 			hq.Block, hq.Results = p.Block, p.Results
 			pay.Block, pay.Results = p.Block, p.Results
 		}
-		g.deliverAll(s.CraftVote(d, pay, hq, nil, []int{leader}))
+		// the vote also carries a build height (unsigned): the genuine one of that proposal or, unless the finding about forged
+		// build heights is open, a forged one (0) - a replica that adopts it re-reports it in its own election votes
+		rc := uint64(0)
+		if p != nil {
+			rc = p.RcBuild
+			if nr.IntN(2) == 0 {
+				if findingOpen(KFBuildHeight) {
+					g.res.Excluded[KFBuildHeight]++
+				} else {
+					rc = 0
+				}
+			}
+		}
+		g.deliverAll(s.CraftVoteBuild(d, pay, hq, rc, []int{leader}))
 		g.class("replay:cert-as-highqc-in-vote")
 	case 4: // PROPOSE of the current view justified by an election certificate of another view
 		var el []*lib.QuorumCertificate
